@@ -246,6 +246,21 @@ Theorem gen_user_add_node_eq : forall st n a px force top, book_nodes st ->
   gen_user_add_node st n a px force top = user_add_node st n a px force top.
 Proof. intros. unfold gen_user_add_node, user_add_node. now rewrite gen_user_add_node_core_eq. Qed.
 
+(* [book_nodes] is needed: the lookup of track 1 lists 5, which is not a node.  Adding node 7 to
+   track 1 at time -1 finds 5 as the next node of the track; the generated code (the Python)
+   raises NetworkXError at `graph.predecessors(5)`, the hand model goes on, adds the node and
+   fails later, in AddEdge(7, 5), with ValueError and another state. *)
+Example book_nodes_needed :
+  let st0 := {| g := {| nodes := []; succs := [] |}; seg := None;
+                ft := {| reg_node := []; reg_edge := []; pos_keys := []; rp_all := []; rp_act := [];
+                         iou_avail := false; iou_act := false; trk_act := true; lin_act := true |};
+                bk := {| trk_book := [(1, [5])]; lin_book := []; max_trk := 1; max_lin := 0 |};
+                undo_stack := []; redo_stack := []; rlog := []; nctr := 0 |} in
+  let a := [(KTime, VZ (-1)); (KTrack, VZ 1)] in
+  (exists s, gen_user_add_node_core st0 7 a None false = Err ENetworkX s) /\
+  (exists s, user_add_node_core st0 7 a None false = Err EValue s).
+Proof. split; eexists; vm_compute; reflexivity. Qed.
+
 (* ---------- UserUpdateSegmentation ---------- *)
 Theorem gen_user_update_seg_core_eq : forall st nv groups T force,
   gen_user_update_seg_core st nv groups T force = user_update_seg_core st nv groups T force.
